@@ -61,6 +61,10 @@ type mrec struct {
 	unbound bool // written by PutMany: version not returned, bound at first observation
 	exp     *time.Time
 	lag     time.Duration // how long the backend may legitimately keep the record past exp (network latency)
+	// wret: when the writing call returned. A backend that stores relative lifetimes cannot store
+	// a non-positive one (the Redis backend writes 1ms instead): a record whose ExpiresAt had
+	// passed by the time it was written may live until shortly after the write
+	wret time.Time
 }
 
 type model struct {
@@ -98,7 +102,7 @@ func (m *model) liveness(key string, t0, t1 time.Time) int {
 	if t1.Add(m.grace).Before(*r.exp) {
 		return 1
 	}
-	if r.exp.Before(t0.Add(-m.grace - r.lag)) {
+	if r.exp.Before(t0.Add(-m.grace-r.lag)) && r.wret.Add(time.Millisecond+m.grace).Before(t0) {
 		return 0
 	}
 	return -1
@@ -203,7 +207,7 @@ func (m *model) applyCreate(key, val string, exp *time.Time, o *outcome, t0, t1 
 			msgs = append(msgs, msg)
 			continue
 		}
-		m.recs[key] = &mrec{val: val, ver: o.Ver, exp: exp, lag: m.LagWrite}
+		m.recs[key] = &mrec{val: val, ver: o.Ver, exp: exp, lag: m.LagWrite, wret: time.Now()}
 		return ""
 	}
 	return strings.Join(msgs, " | ")
@@ -267,7 +271,7 @@ func (m *model) applyPut(key, val string, exp *time.Time, o *outcome) string {
 	if o.Val != val {
 		return fmt.Sprintf("Put(%q) returned a record with value %q, written %q", key, o.Val, val)
 	}
-	m.recs[key] = &mrec{val: val, ver: o.Ver, exp: exp, lag: m.LagWrite}
+	m.recs[key] = &mrec{val: val, ver: o.Ver, exp: exp, lag: m.LagWrite, wret: time.Now()}
 	return ""
 }
 
@@ -277,7 +281,7 @@ func (m *model) applyPutMany(keys, vals []string, exps []*time.Time, o *outcome)
 	}
 	for i, k := range keys {
 		// a key repeated in the batch: the last record wins
-		m.recs[k] = &mrec{val: vals[i], unbound: true, exp: exps[i], lag: m.LagWrite}
+		m.recs[k] = &mrec{val: vals[i], unbound: true, exp: exps[i], lag: m.LagWrite, wret: time.Now()}
 	}
 	return ""
 }
@@ -309,7 +313,7 @@ func (m *model) applyCas(key, val, ver string, exp *time.Time, o *outcome, t0, t
 				msgs = append(msgs, msg)
 				continue
 			}
-			m.recs[key] = &mrec{val: val, ver: o.Ver, exp: exp, lag: m.LagCas}
+			m.recs[key] = &mrec{val: val, ver: o.Ver, exp: exp, lag: m.LagCas, wret: time.Now()}
 			return ""
 		}
 		if o.Err != "ErrConflict" {
